@@ -643,11 +643,14 @@ func (ndb *nodeDB) DeleteVersionsFrom(fromVersion int64) error {
 		fromVersion = legacyLatestVersion + 1
 	}
 
-	// Delete the nodes for new format
-	if err = ndb.traverseRange(nodeKeyPrefixFormat.KeyInt64(fromVersion), nodeKeyPrefixFormat.KeyInt64(latest+1), func(k, _ []byte) error {
-		return ndb.batch.Delete(k)
-	}); err != nil {
-		return err
+	// Delete the nodes for new format, the latest version first and the root of a version
+	// before its other nodes, so that an interruption leaves a consistent range of versions.
+	for version := latest; version >= fromVersion; version-- {
+		if err = ndb.traverseRange(nodeKeyPrefixFormat.KeyInt64(version), nodeKeyPrefixFormat.KeyInt64(version+1), func(k, _ []byte) error {
+			return ndb.batch.Delete(k)
+		}); err != nil {
+			return err
+		}
 	}
 
 	// NOTICE: we don't touch fast node indexes here, because it'll be rebuilt later because of version mismatch.
